@@ -25,7 +25,7 @@ OnOut(A, e) ==
                               !.seen = Append(@, e)]
     [] OTHER -> [A EXCEPT !.seen = Append(@, e)]
 
-Step(M, st) ==
+StepN(M, st) ==
   LET M0  == [M EXCEPT !.i = @ + 1]
       out == st.out
       c0  == IF st.act.a = "submit" /\ "c0" \in DOMAIN st.act THEN st.act.c0 ELSE 0
@@ -44,4 +44,5 @@ Step(M, st) ==
       sigs == UNION {bad(A.subs[x]) : x \in 1..Len(A.subs)}
   IN [M0 EXCEPT !.viol = @ \cup {[sig |-> s, at |-> M0.i] : s \in sigs}, !.deliv = A.deliv, !.prevCst = st.snap.cst,
                 !.R = RUpdate(M0.R, st)]
+Step(M, s0) == StepN(M, Norm(s0))
 =============================================================================
